@@ -749,3 +749,42 @@ Print Assumptions C08_comp_stream_usable_after_error.
 Print Assumptions C08_comp_stream_read_of_pulled_input_succeeds.
 Print Assumptions C08_comp_stream_starved_read_meets_inner_error.
 Print Assumptions C08_comp_stream_example.
+
+(* ---------- Tie A level 1, work package readerT (tools/src2v3_reader.py -> gen/Src3d.v): the normal reader re-translated from the source, statement by statement, IS the model's (theories/SrcTie3Reader*.v) ---------- *)
+From MLA Require SrcTie3Reader SrcTie3ReaderTotal.
+Check SrcTie3ReaderTotal.bfr_read_total_src.
+Theorem C08_tie_bfr_read_total_src : ltac:(let t := type of SrcTie3ReaderTotal.bfr_read_total_src in exact t).
+Proof. exact SrcTie3ReaderTotal.bfr_read_total_src. Qed.
+Print Assumptions C08_tie_bfr_read_total_src.
+Check SrcTie3ReaderTotal.get_file_total_src.
+Theorem C08_tie_get_file_total_src : ltac:(let t := type of SrcTie3ReaderTotal.get_file_total_src in exact t).
+Proof. exact SrcTie3ReaderTotal.get_file_total_src. Qed.
+Print Assumptions C08_tie_get_file_total_src.
+Check SrcTie3ReaderTotal.get_hash_total_src.
+Theorem C08_tie_get_hash_total_src : ltac:(let t := type of SrcTie3ReaderTotal.get_hash_total_src in exact t).
+Proof. exact SrcTie3ReaderTotal.get_hash_total_src. Qed.
+Print Assumptions C08_tie_get_hash_total_src.
+Check SrcTie3Reader.bfr_read_sim.
+Theorem C08_tie_bfr_read_sim : ltac:(let t := type of SrcTie3Reader.bfr_read_sim in exact t).
+Proof. exact SrcTie3Reader.bfr_read_sim. Qed.
+Print Assumptions C08_tie_bfr_read_sim.
+Check SrcTie3Reader.footer_deserialize_order_src.
+Theorem C08_tie_footer_deserialize_order_src : ltac:(let t := type of SrcTie3Reader.footer_deserialize_order_src in exact t).
+Proof. exact SrcTie3Reader.footer_deserialize_order_src. Qed.
+Print Assumptions C08_tie_footer_deserialize_order_src.
+Check SrcTie3Reader.footer_bincode_args_src.
+Theorem C08_tie_footer_bincode_args_src : ltac:(let t := type of SrcTie3Reader.footer_bincode_args_src in exact t).
+Proof. exact SrcTie3Reader.footer_bincode_args_src. Qed.
+Print Assumptions C08_tie_footer_bincode_args_src.
+Check SrcTie3Reader.footer_short_position_refused.
+Theorem C08_tie_footer_short_position_refused : ltac:(let t := type of SrcTie3Reader.footer_short_position_refused in exact t).
+Proof. exact SrcTie3Reader.footer_short_position_refused. Qed.
+Print Assumptions C08_tie_footer_short_position_refused.
+Check SrcTie3Reader.bfr_new_empty_panics.
+Theorem C08_tie_bfr_new_empty_panics : ltac:(let t := type of SrcTie3Reader.bfr_new_empty_panics in exact t).
+Proof. exact SrcTie3Reader.bfr_new_empty_panics. Qed.
+Print Assumptions C08_tie_bfr_new_empty_panics.
+Check SrcTie3Reader.no_metadata_refused.
+Theorem C08_tie_no_metadata_refused : ltac:(let t := type of SrcTie3Reader.no_metadata_refused in exact t).
+Proof. exact SrcTie3Reader.no_metadata_refused. Qed.
+Print Assumptions C08_tie_no_metadata_refused.
